@@ -22,8 +22,11 @@ const PROGRAMS: &[&str] = &[
 ];
 
 const NOT_COMPLETABLE: &[&str] = &[
-    "forall X (q(X) -> p(X, X)).", "q(1) -> p(1).", "forall X (q(X) -> p(X + 1)).", "forall X (q(X) -> p(Y)).", "forall X (q(X) -> p(X)). forall Y (r(Y) -> p(Y)).", "p <-> q.", "forall X (p(X) or q(X)).", "forall X (q(X) -> p(X) and r(X)).",
+    "forall X (q(X) -> p(X, X)).", "q(1) -> p(1).", "forall X (q(X) -> p(1)).", "forall X (q(X) -> p(Y)).", "forall X (q(X) -> p(X)). forall Y (r(Y) -> p(Y)).", "p <-> q.", "forall X (p(X) or q(X)).", "forall X (q(X) -> p(X) and r(X)).",
     "forall X (q(X) -> p(X)). forall X Y (r(X, Y) -> p(Y)).", "forall X (q(X, Y) -> p(X)).", "exists X (q(X) -> p(X)).", "forall X (q(X) -> not p(X)).",
+    // a head argument that is not a variable although the head mentions as many variables as it has arguments
+    "forall N$i (p(N$i + 1) <- q(N$i)).", "forall N$i (q(N$i) -> p(N$i * 0)).", "forall I$i J$i (p(I$i * J$i, 1) <- q(I$i, J$i)).", "forall X$i Y$i (s(X$i) and s(Y$i) -> r(X$i + Y$i, a)).", "forall N$i (q(N$i) -> p(-N$i)).",
+    "forall X N$i (q(X, N$i) -> p(X, N$i + 0)).", "forall X$s (q(X$s) -> p(a)).", "forall X Y (q(X, Y) -> p(Y, Y)).", "forall X (q(X) -> p(#inf)).",
 ];
 const COMPLETABLE: &[&str] = &[
     "forall X (q(X) -> p(X)). forall X (r(X) -> p(X)).", "forall V1 (exists X (V1 = X and q(X)) -> p(V1)). forall X (p(X) and not q(X) -> #false).", "forall V1 (q(V1) -> p(V1)). forall V1 V2 (q(V1) -> p(V1, V2)).", "#true -> p. q -> p.", "q and not r -> p.",
@@ -96,6 +99,7 @@ pub fn check(st: &mut CStats, fails: &mut Vec<Failure>) {
         if st.samples.len() < 4 { st.samples.push(format!("`{text}` -> {}", out.trim().replace('\n', " "))); }
     }
     for t in NOT_COMPLETABLE {
+        if anthem::syntax_tree::fol::sigma_0::Theory::from_str(t).is_err() { fails.push(Failure { property: "harness", input: t.to_string(), detail: "corpus theory does not parse".into() }); continue; }
         let (rc, out, _) = match run_anthem(&["translate", "--with", "completion"], Some(t)) { Ok(x) => x, Err(e) => { fails.push(Failure { property: "harness", input: t.to_string(), detail: e }); return; } };
         if rc == 0 { fails.push(Failure { property: "C04", input: format!("anthem translate --with completion < `{t}`"), detail: format!("the theory is not completable but a completion is printed: {}", out.trim().replace('\n', " ")) }); }
     }
